@@ -3,7 +3,9 @@
 (B) on the real return triple of validate(): the three renderings of the verdict agree, the verdict formula, the text's result
     count equals the number of sh:result links, every result node is well-formed, its terms denote terms of the validated
     graphs, blank-node terms come with a copy of their description.
-(A) code vs Impl under the option combinations the model covers (in-memory evaluation, no inference).
+(A) code vs Impl under the option combinations the model covers (in-memory evaluation, no inference): the results (`validate`
+    op) and the assembled report — report graph up to blank-node labels, text header and block count (`report` op: Report.lean's
+    create_validation_report / make_v_result / clone_blank_node / clone_list).
 Inputs: the generators of C01/C02/C04 x all 2^5 combinations of advanced, abort_on_first, allow_infos, allow_warnings,
 sparql_mode x inference {none, rdfs} x {Graph, Dataset}.
 """
@@ -15,6 +17,7 @@ import rdflib
 from rdflib import BNode, Dataset, Graph, Literal, URIRef
 from rdflib.namespace import RDF
 
+import reportcase
 import shapegen
 import vcase
 import wire
@@ -116,6 +119,56 @@ def check_report(out, case, sg, dg_terms, dg_graph, opts, conforms, rg, text):
     return fails
 
 
+def report_directed(k):
+    """inputs aimed at the description copies: blank-node chains deeper than the clone depth, list heads as value nodes and as
+    result paths, an empty data graph (descriptions then come from the shapes graph), nested details, list nodes with extras"""
+    from rdflib.collection import Collection
+    sg, dg = Graph(), Graph()
+    S = EX["RS%d" % k]
+    sg.add((S, RDF.type, SH.NodeShape))
+    kind = k % 6
+
+    def value_shape():
+        ps = BNode()
+        sg.add((S, SH.property, ps)); sg.add((ps, SH.path, EX.p0)); sg.add((ps, SH.nodeKind, SH.IRI)); sg.add((S, SH.targetNode, EX.n0))
+    if kind == 0:
+        value_shape()
+        v = BNode(); dg.add((EX.n0, EX.p0, v)); cur = v
+        for d in range(k // 6 + 1):
+            nxt = BNode(); dg.add((cur, EX.p1, nxt)); dg.add((cur, EX.p2, Literal("level %d" % d))); cur = nxt
+        dg.add((cur, EX.p2, EX.n1))
+    elif kind == 1:
+        value_shape()
+        l = BNode(); Collection(dg, l, [EX.n1, Literal("x"), BNode(), EX.n2][: k // 6 % 4 + 1]); dg.add((EX.n0, EX.p0, l))
+        for b in list(dg.objects(None, RDF.first)):
+            if isinstance(b, BNode):
+                dg.add((b, EX.p1, Literal("member")))
+    elif kind == 2:
+        sg.add((S, SH.targetNode, EX.n0)); sg.add((S, SH["class"], EX.C0))
+        if k // 6 % 2:
+            sg.add((S, SH.targetNode, Literal("lit")))
+    elif kind == 3:
+        ps = BNode(); sg.add((S, SH.property, ps)); sg.add((S, SH.targetNode, EX.n0))
+        l = BNode(); Collection(sg, l, [EX.p0, EX.p1])
+        if k // 6 % 2:
+            a = BNode(); sg.add((a, SH.alternativePath, l)); sg.add((ps, SH.path, a))
+        else:
+            sg.add((ps, SH.path, l))
+        sg.add((ps, SH.minCount, Literal(3)))
+        dg.add((EX.n0, EX.p0, EX.n1)); dg.add((EX.n1, EX.p1, EX.n2))
+    elif kind == 4:
+        ns = BNode(); sg.add((S, SH.node, ns)); sg.add((ns, SH["class"], EX.C0)); sg.add((ns, SH.nodeKind, SH.Literal)); sg.add((S, SH.targetSubjectsOf, EX.p0))
+        dg.add((EX.n0, EX.p0, EX.n1)); b = BNode(); dg.add((b, EX.p0, Literal(1)))
+    else:
+        value_shape()
+        l = BNode(); Collection(dg, l, [EX.n1, EX.n2, BNode()][: 2 + k // 12 % 2]); dg.add((l, EX.p1, Literal("extra"))); dg.add((EX.n0, EX.p0, l))
+        if k // 6 % 2:      # a later cell carries statements too, one of them about a further blank node
+            cell = dg.value(l, RDF.rest)
+            other = BNode()
+            dg.add((cell, EX.p1, Literal("about the second cell"))); dg.add((cell, EX.p2, other)); dg.add((other, EX.p1, EX.n1))
+    return sg, dg
+
+
 def run(ctx, out):
     rng = random.Random(ctx.seed * 67867967 + 6)
     quick = ctx.tier == "quick"
@@ -154,6 +207,8 @@ def run(ctx, out):
         if k % 2:
             dgd.add((v, EX.p0, Literal(k)))
         cases.append(("shared-labels:directed", sgd, dgd))
+    for k in range(12 if quick else 60):
+        cases.append(("report-directed:%d" % (k % 6), *report_directed(k)))
     combos = list(itertools.product((False, True), repeat=5))   # advanced, abort, infos, warnings, sparql
     out.rule = ("Core + composition generators x all 32 combinations of (advanced, abort_on_first, allow_infos, allow_warnings, sparql_mode) "
                 "[sampled 10 per case in quick, all in thorough] + inference {none, rdfs} x {Graph, Dataset}; non-trivial = distinct "
@@ -169,6 +224,7 @@ def run(ctx, out):
     for n, (i, opts, inf, cont) in enumerate(plan):
         if inf == "none" and not opts.get("sparql_mode") and not opts.get("abort_on_first"):
             lines.append(vcase.model_line("c%d" % n, cases[i][1], cases[i][2], opts))
+            lines.append(reportcase.model_line("r%d" % n, cases[i][1], cases[i][2], opts))
     replies = ctx.driver.ask(lines)
     for n, (i, opts, inf, cont) in enumerate(plan):
         label, sg, dg = cases[i]
@@ -191,6 +247,13 @@ def run(ctx, out):
             d = vcase.compare(code, model, sg, with_detail=True)
             if d:
                 out.a_mismatch.append({"case": case, "diff": d[:1000], "op": "validate"})
+            if vcase.unspecified_mask(sg):
+                out.count("report_not_compared_unspecified_ordering")
+            else:
+                d2 = reportcase.compare(code, reportcase.parse_reply(replies["r%d" % n]), sg)
+                out.count("report_graph_compared")
+                if d2:
+                    out.a_mismatch.append({"case": case, "diff": d2[:1000], "op": "report"})
         if code[0] == "err":
             out.count("code_err:" + code[1])
             continue
